@@ -1351,6 +1351,8 @@ func (e *Exec) instr(st *State, b *ssa.BasicBlock, ins ssa.Instruction) (stop bo
 				e.oblige(st, "nil", fmt.Sprintf("(not (= %s 0))", e.val(st, x.X)))
 			}
 			st.vals[x] = e.load(st, e.ptr(st, x.X))
+			// every slice value held by a live object has the shape of a slice (0 <= len <= cap, ...), in every state
+			st.assume = append(st.assume, e.shapeFacts(st.vals[x], x.Type(), 0)...)
 		case token.NOT:
 			st.vals[x] = fmt.Sprintf("(not %s)", e.val(st, x.X))
 		case token.SUB:
@@ -1404,6 +1406,12 @@ func (e *Exec) instr(st *State, b *ssa.BasicBlock, ins ssa.Instruction) (stop bo
 			}
 		case x.Op == token.NEQ:
 			st.vals[x] = fmt.Sprintf("(not (= %s %s))", a, bb)
+		case x.Op == token.QUO && e.sorts.SortOf(x.X.Type()) == "Int": // Go truncates toward zero
+			e.oblige(st, "nopanic", fmt.Sprintf("(not (= %s 0))", bb))
+			st.vals[x] = fmt.Sprintf("(ite (>= %s 0) (div %s %s) (- (div (- %s) %s)))", a, a, bb, a, bb)
+		case x.Op == token.REM && e.sorts.SortOf(x.X.Type()) == "Int":
+			e.oblige(st, "nopanic", fmt.Sprintf("(not (= %s 0))", bb))
+			st.vals[x] = fmt.Sprintf("(ite (>= %s 0) (mod %s %s) (- (mod (- %s) %s)))", a, a, bb, a, bb)
 		case op != "":
 			st.vals[x] = fmt.Sprintf("(%s %s %s)", op, a, bb)
 		default:
@@ -1416,6 +1424,10 @@ func (e *Exec) instr(st *State, b *ssa.BasicBlock, ins ssa.Instruction) (stop bo
 		es := e.sorts.SortOf(el)
 		h := e.heapSym(st, e.sorts.HeapSlice(es))
 		st.assume = append(st.assume, fmt.Sprintf("(forall ((k Int)) (=> (and (<= 0 k) (< k %s)) (= (select (select %s %s) k) %s)))", cp, h, r, e.sorts.Zero(el)))
+		if es == "(_ BitVec 8)" { // a fresh byte buffer is all zero bytes, whatever prefix of it is looked at (lemma bytes_zero_prefix)
+			e.declOnce("(declare-fun bzeros (Int) Bytes)")
+			st.assume = append(st.assume, fmt.Sprintf("(forall ((j Int)) (! (=> (and (<= 0 j) (<= j %s)) (= (bytesv (select %s %s) 0 j) (bzeros j))) :pattern ((bytesv (select %s %s) 0 j))))", cp, h, r, h, r))
+		}
 		e.oblige(st, "makeslice", fmt.Sprintf("(and (<= 0 %s) (<= %s %s))", ln, ln, cp))
 		st.vals[x] = fmt.Sprintf("(mkslice %s 0 %s %s)", r, ln, cp)
 	case *ssa.Slice:
@@ -1756,6 +1768,27 @@ func (e *Exec) call(st *State, c *ssa.Call) string {
 			return fmt.Sprintf("(len %s)", args[0])
 		case "append":
 			return e.appendCall(st, c, args)
+		case "cap":
+			return fmt.Sprintf("(cap %s)", args[0])
+		case "copy": // copy(dst, src): min(len dst, len src) elements, encoded with the recursive copyInto function
+			dst, src := args[0], args[1]
+			el := c.Call.Args[0].Type().Underlying().(*types.Slice).Elem()
+			es := e.sorts.SortOf(el)
+			if e.sorts.SortOf(c.Call.Args[1].Type()) == "String" {
+				panic("copy from a string: out of subset")
+			}
+			hn := e.sorts.HeapSlice(es)
+			h := e.heapSym(st, hn)
+			cp := "copyInto_" + sanitize(es)
+			if es == "(_ BitVec 8)" {
+				e.extraUses = append(e.extraUses, "bytescopy.smt2")
+			}
+			e.declOnce(fmt.Sprintf("(define-fun-rec %s ((a (Array Int %s)) (at Int) (x (Array Int %s)) (xo Int) (m Int)) (Array Int %s) (ite (<= m 0) a (store (%s a at x xo (- m 1)) (+ at (- m 1)) (select x (+ xo (- m 1))))))", cp, es, es, es, cp))
+			n := fmt.Sprintf("(ite (<= (len %s) (len %s)) (len %s) (len %s))", dst, src, dst, src)
+			nh := e.fresh(hn, e.sorts.heaps[hn])
+			st.assume = append(st.assume, fmt.Sprintf("(= %s (store %s (base %s) (%s (select %s (base %s)) (off %s) (select %s (base %s)) (off %s) %s)))", nh, h, dst, cp, h, dst, dst, h, src, src, n))
+			st.heap[hn] = nh
+			return n
 		}
 		panic("builtin " + bi.Name())
 	}
@@ -2394,6 +2427,27 @@ func (e *Exec) applyContract(st *State, call *ssa.Call, fc *FuncContract, args [
 	return strings.Join(rs, "\x00")
 }
 
+// shapeFacts: state-independent facts about the slices inside a loaded value.
+func (e *Exec) shapeFacts(term string, t types.Type, depth int) []string {
+	if depth > 3 {
+		return nil
+	}
+	switch u := t.Underlying().(type) {
+	case *types.Slice:
+		return []string{fmt.Sprintf("(and (<= 0 (base %s)) (<= 0 (off %s)) (<= 0 (len %s)) (<= (len %s) (cap %s)) (=> (= (base %s) 0) (= (cap %s) 0)))", term, term, term, term, term, term, term)}
+	case *types.Struct:
+		if n, ok := t.(*types.Named); ok && e.sorts.opaque(n, u) {
+			return nil
+		}
+		var out []string
+		for i := 0; i < u.NumFields(); i++ {
+			out = append(out, e.shapeFacts(e.project(term, t, []int{i}), u.Field(i).Type(), depth+1)...)
+		}
+		return out
+	}
+	return nil
+}
+
 // wellFormedAny: results of calls are valid but not necessarily pre-existing
 func (e *Exec) wellFormedAny(term string, t types.Type) []string {
 	switch t.Underlying().(type) {
@@ -2431,6 +2485,7 @@ func isStruct(t types.Type) bool { _, ok := t.Underlying().(*types.Struct); retu
 
 // applySimple applies a trusted contract to a built-in operation (conversion, allocation).
 func (e *Exec) applySimple(st *State, fc *FuncContract, args []string, ptys []types.Type, res types.Type) string {
+	e.applied[fc.Name]++
 	c := e.newCtx(st)
 	c.fn = nil
 	for i, n := range fc.Params {
